@@ -415,3 +415,32 @@ PROPS["C14"] = dict(
     not_decided=["'immediately after a successful sync the same command transfers nothing' is a two-run statement over run_local/run_remote (tokio orchestration, not under contract): per file it follows from the three clauses above; end to end only the bounded twin",
                  "push: the remote `touch -d @t` and `find -printf %T@` round trip is shell, not Rust: twin only"],
 )
+
+
+# ---- C04: a recursive one-way sync delivers exactly its plan ----
+PROPS["C04"] = dict(
+    level="proof",
+    units=[dict(template="units/planrun.rs", slice=["*"]),
+           dict(template="units/plan.rs", slice=["build_plan", "needs_transfer", "is_excluded", "glob_match"]),
+           dict(template="units/oneway.rs", slice=["deliver_local", "deliver_pull", "tmp_path", "create_local_dirs"])],
+    kani=[dict(harness="c19_needs_transfer_is_quick_check", repo_fn="src/bin/copia/plan.rs needs_transfer", desc="needs_transfer(src, dst) == (dst absent or size differs or whole-second mtime differs), all inputs")],
+    twins=[dict(name="delivers_plan", repo_fn="src/bin/copia/incremental.rs run_local/run_remote (whole run)", quick=1, thorough=1, needs_cli=True,
+                contract="`copia sync -r` on the real binary, three directions (ssh stand-in) x five flag sets ({}, --delete, --delete --exclude '*.log', --exclude 'sub dir', --delete -j 4), one tree of 15 awkward names (spaces, both quotes, backslash, $, glob characters, leading dash, unicode, NEWLINES in a file name, a directory name and a stale name, nesting, dot file) in the four destination states {absent, same size+mtime, other size, other mtime} plus four destination-only files: exit 0; the destination equals the plan of the property statement (planned files byte-identical with the source's whole-second mtime, matched files left exactly as they were, with --delete exactly the non-excluded destination-only files removed); the source is unmodified; no staging file remains; two bystander files in the (remote) working directory are untouched",
+                bounded="the end-to-end statement is about run_local/run_remote (tokio::spawn, Semaphore, ssh children) and remote shell commands, which have no contract; this run stands in. Bound: ONE tree (15 + 4 files), 5 flag sets, 3 directions, -j 2 and 4; remote = local sh through an ssh stand-in")],
+    fallback_searches=["delivers_plan"],
+    clauses={
+        "build_plan / needs_transfer / is_excluded / glob_match": "the plan: transfer = sorted non-excluded source paths absent from the destination or differing in size or whole-second mtime; delete = [] without the flag, else the sorted non-excluded destination paths absent from the source (shared with C19/C15)",
+        "deliver_local / deliver_pull": "one delivery changes only its destination path and the staging sibling; Ok ==> dst holds the source bytes and the planned mtime (shared with C09/C14)",
+        "apply_remote_deletes": "pull: the only effects are Unlink(local_root/rel) for rel in the delete list, nothing else changes, no remote command; push: exactly ONE remote command, whose argument list - as xargs cuts it at the delimiter its command names - is exactly [remote_root/rel | rel in the delete list] (no entry can be split: the delimiter is NUL and no name contains NUL)",
+        "create_remote_dirs": "at most ONE remote command; it creates exactly remote_root and remote_root/dir for the planned directories",
+    },
+    trusted=ONEWAY_TRUST + [
+        "the remote shell is not Rust: ASSUMED only that xargs cuts its input at the delimiter named on its command line and that `rm -f --` / `mkdir -p` act on exactly those arguments (R5 shim ssh_xargs; the delimiter and verb are read off the command string literal by the replacement rule)",
+        "R3' shims first_entry / push_list_entry for format!/write! as concatenation; display(p) contains no NUL byte (OS rule)",
+        "PATH_TRUST: std::path component grammar for is_excluded (validated by its twin under C15/C19)",
+    ],
+    assumptions=["remote_root (a command-line argument) contains neither NUL nor newline", "mtimes at or after the epoch; names ending in .copia-tmp are reserved"],
+    not_decided=["run_local / run_remote themselves (task spawning, job count, completion order, the report) are not under contract: that every planned file is delivered and nothing else is touched END TO END is exercised by the bounded twin only",
+                 "transfer_file_to_remote / transfer_file_from_remote command strings ($'..' quoting of awkward names): twin only",
+                 "host:path parsing in main.rs is not under contract"],
+)
